@@ -7,6 +7,9 @@ first-line rewrite and the decision on hand-made notes.
 Replay: the whole public path with a frozen clock - `db create` on the old text, edit the file,
 `db reindex` on the scenario's day, read the SQLite rows and the file, `db reindex` again.
 """
+import os as _os
+_os.environ["XH_NO_PATCH"] = "1"   # this process replays on the real code: never patch zorg here
+
 import datetime as dt
 import os
 import shutil
